@@ -1006,7 +1006,7 @@ def add_call_case(terms, metas, mode, debug, credit, attempt, inp, spec, rec, na
 
 def run_calls(ctx, res, rng):
     quick = ctx['tier'] == 'quick'
-    n_random = (3000 if ctx['escalate'] else 2000) if quick else 12000
+    n_random = (2500 if ctx['escalate'] else 1500) if quick else 12000
     per_signature = (4 if ctx['escalate'] else 3) if quick else 20
     Z = zoo()
     graders = {}
@@ -1566,7 +1566,7 @@ def run_attempts(ctx, res, rng):
                                       'what': 'grader with schedule %s could not be built: %r' % (label, built)})
                 continue
             _, g = built
-            for ai, att in enumerate(ATTEMPTS):
+            for ai, att in enumerate(ATTEMPTS if (not quick or label in builtin) else ATTEMPTS[:4] + ATTEMPTS[-2:-1]):
                 if mode == LIST or (mode == BOTH and (ai + li) % 2):
                     k = LIST_SIZES.get(name, 2)
                     spec = ['list', [rng.choice(['a', '1', 'x', 'cat', '1/0', '2']) for _ in range(k)]]
@@ -1614,8 +1614,8 @@ def probe_outcomes(ctx):
     out = {}
     for name in PROBE_GRADERS:
         mode, factory, credit = zoo_entry(name)
+        g = factory(False)
         for i, t in enumerate(PROBE_TEXTS):
-            g = factory(False)
             spec = t if mode != LIST else ['list', [t] * LIST_SIZES.get(name, 2)]
             rec = observe(g, build_object(spec), seed=4242 + i, tag=(name, spec, None))
             if rec['status'] == 'exc':
